@@ -75,7 +75,8 @@ Inductive ev :=
 | EvCb (c : cb) (r : cbret) (s : shim)    (* callback, its result, flags after *)
 | EvFinish                                (* finish_handshake *)
 | EvApi (e : eend)                        (* an engine API call ended *)
-| EvPoll (r : hres).                      (* a poll entry point returned *)
+| EvPoll (r : hres)                       (* a poll entry point returned *)
+| EvWake.                                 (* the environment woke the task *)
 
 Definition P_POLLED_AFTER_COMPLETION : N := 9.
 
@@ -249,7 +250,7 @@ Section Shim.
     | S p =>
       let! '(h, st1, e1, s1, t1, log1) := hs_poll fuel st e s t log in
       match h with
-      | HPend => hs_run p fuel st1 e1 s1 (t_wake tp t1) log1
+      | HPend => hs_run p fuel st1 e1 s1 (t_wake tp t1) (log1 ++ [EvWake])
       | _ => Ok (h, st1, e1, s1, t1, log1)
       end
     end.
@@ -285,10 +286,26 @@ Definition unflushed_step (u : list byte) (e : ev) : list byte :=
   end.
 Definition unflushed (log : list ev) : list byte := fold_left unflushed_step log [].
 
+(* the flush-before-wait checker: scans a log keeping (handshaken?, held-back
+   bytes, verdict); the verdict turns false at a transport read issued in
+   handshake mode while bytes are held back *)
+Definition is_nil {A} (l : list A) : bool := match l with [] => true | _ => false end.
+Definition fbw_step (st : bool * list byte * bool) (e : ev) : bool * list byte * bool :=
+  let '(hs, u, ok) := st in
+  match e with
+  | EvFinish => (true, u, ok)
+  | EvT (TcRead _) _ => (hs, u, ok && (hs || is_nil u))
+  | _ => (hs, unflushed_step u e, ok)
+  end.
+Definition fbw (log : list ev) : bool * list byte * bool := fold_left fbw_step log (false, [], true).
+Definition fbw_ok (log : list ev) : bool := snd (fbw log).
+
 (* number of transport calls / of Pending answers in a log *)
 Definition is_tcall (e : ev) : bool := match e with EvT _ _ => true | _ => false end.
 Definition is_tpend (e : ev) : bool := match e with EvT _ TPend => true | _ => false end.
 Definition is_pollpend (e : ev) : bool := match e with EvPoll HPend => true | _ => false end.
+Definition is_cb (e : ev) : bool := match e with EvCb _ _ _ => true | _ => false end.
+Definition is_finish (e : ev) : bool := match e with EvFinish => true | _ => false end.
 Definition count {A} (f : A -> bool) (l : list A) : nat := length (filter f l).
 
 (* ---------------------------------------------------------------------- *)
@@ -382,7 +399,7 @@ Definition pop_of_ev (e : ev) : list pop :=
   | EvT (TcRead cap) _ => [PRead E_READ TASK_WAKER cap]
   | EvT (TcWrite d) _ => [PWrite TASK_WAKER d]
   | EvT TcFlush _ => [PFlush TASK_WAKER]
-  | EvPoll HPend => [PWakeR; PWakeW]
+  | EvWake => [PWakeR; PWakeW]
   | _ => []
   end.
 Definition pops_of (log : list ev) : list pop := flat_map pop_of_ev log.
